@@ -46,7 +46,7 @@ def gen_case(rng, idx):
         vres.append([v, rq])
     # global reservations first, so that capacities can be chosen around them
     gres = []
-    for _ in range(rng.choice([0, 0, 0, 1, 1, 2])):
+    for _ in range(rng.choice([0, 0, 1, 1, 1, 2])):
         start = rng.choice([0, 0, 1, 2])
         gres.append(["reserve", rng.choice(res), start, start + rng.choice([0, 1, 1, 2]), None])
     G = dict((r, sum(k[3] - k[2] for k in gres if k[1] == r)) for r in res)
@@ -61,10 +61,18 @@ def gen_case(rng, idx):
     caps = [[r, G[r] + per_chip[r] if rng.random() < 0.92 else rng.choice([0, 1, 2])] for r in res]
     exc = []
     pexc = rng.choice([0, 0.15, 0.3, 0.6])
+    pdeadexc = rng.choice([0, 0.5, 1.0]) if dead else 0
     for c in chips:
-        if rng.random() < pexc:               # also on dead chips
-            exc.append([list(c), [[r, (G[r] if rng.random() < 0.9 else 0) + rng.choice([0, 1, 2, per_chip[r], per_chip[r] + 2])]
-                                  for r in res]])
+        if c in dead and rng.random() < pdeadexc:
+            # a dead chip may be listed with anything, in particular with less than is reserved globally
+            e = [[r, rng.choice([0, 0, 1, per_chip[r]])] for r in res]
+        elif rng.random() < pexc:
+            e = [[r, (G[r] if rng.random() < 0.9 else 0) + rng.choice([0, 1, 2, per_chip[r], per_chip[r] + 2])]
+                 for r in res]
+        else:
+            continue
+        rng.shuffle(e)                        # dictionaries need not list the resources in the same order
+        exc.append([list(c), e])
     rng.shuffle(exc)
     dead_links = []
     for c in live:
